@@ -75,11 +75,17 @@ static const char *cname1(struct kdump_shared *s, struct cache *c)
 	return NULL;
 }
 static kdump_ctx_t *C[8];
+/* page caches the library released (cache.size / page size changed, another file opened) while pages of them were still lent
+ * to libaddrxlat: they live on until the last page comes back (cache_release) and still count as "the page cache" */
+static struct cache *orphans[32]; static int norph;
+static int is_orphan(struct cache *c) { int i; for (i = 0; i < norph; ++i) if (orphans[i] == c) return 1; return 0; }
+static void orphan_gone(struct cache *c) { int i; for (i = 0; i < norph; ++i) if (orphans[i] == c) { orphans[i] = orphans[--norph]; return; } }
 static const char *cname(struct cache *c)
 {
 	const char *n = cname1(tr_shared, c);
 	int i;
 	for (i = 0; !n && i < 8; ++i) if (C[i]) n = cname1(C[i]->shared, c);
+	if (!n && is_orphan(c)) n = "pc";
 	return n ? n : "xx";
 }
 
@@ -100,10 +106,19 @@ struct cache_entry *__wrap__kdumpfile_priv_cache_get_entry(struct cache *c, cach
 		ev("B:%s:%" PRIu64 " ", cname(c), (uint64_t)k);
 	return e;
 }
+static unsigned refsum(struct cache *c);
+void __real__kdumpfile_priv_cache_release(struct cache *c);
+void __wrap__kdumpfile_priv_cache_release(struct cache *c)
+{
+	if (refsum(c) && norph < 32) orphans[norph++] = c;      /* survives until its last page is put */
+	__real__kdumpfile_priv_cache_release(c);
+}
 void __wrap__kdumpfile_priv_cache_put_entry(struct cache *c, struct cache_entry *e)
 {
+	int last = is_orphan(c) && refsum(c) == 1;
 	ev("R:%s:%" PRIu64 " ", cname(c), (uint64_t)e->key);
 	__real__kdumpfile_priv_cache_put_entry(c, e);
+	if (last) orphan_gone(c);
 }
 void __wrap__kdumpfile_priv_cache_insert(struct cache *c, struct cache_entry *e)
 {
@@ -112,8 +127,10 @@ void __wrap__kdumpfile_priv_cache_insert(struct cache *c, struct cache_entry *e)
 }
 void __wrap__kdumpfile_priv_cache_discard(struct cache *c, struct cache_entry *e)
 {
+	int last = is_orphan(c) && refsum(c) == 1;
 	ev("D:%s:%" PRIu64 " ", cname(c), (uint64_t)e->key);
 	__real__kdumpfile_priv_cache_discard(c, e);
+	if (last) orphan_gone(c);
 }
 
 /* ------------------------------------------------------------- allocator */
@@ -288,13 +305,14 @@ static unsigned refsum(struct cache *c)
 static void summary(const char *res)
 {
 	unsigned pc = 0, fc = 0, fb = 0; int lent = 0; long bpin = 0;
-	struct kdump_shared *seen[NCTX]; addrxlat_ctx_t *ax[NCTX + NOBJ]; int ns = 0, na = 0, i, j;
+	struct kdump_shared *seen[NCTX]; addrxlat_ctx_t *ax[NCTX + NOBJ]; int ns = 0, na = 0, i, j, ns0 = 0;
 	for (i = 0; i < NCTX; ++i) if (C[i]) {
 		struct kdump_shared *s = C[i]->shared;
 		for (j = 0; j < ns; ++j) if (seen[j] == s) break;
 		if (j == ns) {
 			seen[ns++] = s;
 			pc += refsum(s->cache);
+			if (!ns0) { int k; ns0 = 1; for (k = 0; k < norph; ++k) pc += refsum(orphans[k]); }
 			if (s->fcache) { fc += refsum(s->fcache->cache); fb += refsum(s->fcache->fbcache); }
 		}
 		for (j = 0; j < na; ++j) if (ax[j] == C[i]->xlatctx) break;
